@@ -232,7 +232,8 @@ def run(scn):
             K2 = h2.solution.current_density.to("A/m").magnitude
             ref = float(np.max(np.abs(K1), initial=0.0))
             d = float(np.max(np.abs(K1 - K2), initial=0.0))
-            if d > 1e-8 * ref + 1e-300 and ref > 0:
+            Jlast = np.abs(np.asarray(h1.solution.tdgl_data.supercurrent)) + np.abs(np.asarray(h1.solution.tdgl_data.normal_current))
+            if d > 1e-6 * ref + 1e-300 and float(np.max(Jlast, initial=0.0)) > 1e-9:
                 V.append(Violation("physical-output", f"Solution.current_density in A/m differs by {d / ref:.3g} relative between the unit systems", **where))
             # independent SI value of the sheet current density: (K0/4) x site-averaged edge value ... x 4
             c = get_ctx(sim1)
@@ -241,7 +242,9 @@ def run(scn):
                 Jf = np.asarray(h1.solution.tdgl_data.supercurrent) + np.asarray(h1.solution.tdgl_data.normal_current)
                 Ksi = c.scales.K0 * R.site_average(c.rm, Jf)
                 ref = float(np.max(np.abs(Ksi), initial=0.0))
-                if ref > 0 and float(np.max(np.abs(Ksi - K1))) > si.SI_TOL * ref:
+                # currents at rounding-noise level carry no information (the library normalises
+                # directions with a 1e-12 floor there)
+                if float(np.max(np.abs(Jf), initial=0.0)) > 1e-9 and float(np.max(np.abs(Ksi - K1))) > si.SI_TOL * ref:
                     V.append(Violation("current-density-SI", f"Solution.current_density differs from K0 x site-averaged dimensionless current by {float(np.max(np.abs(Ksi - K1))) / ref:.3g} relative", **where))
         seen = set()
         Vd = [v for v in V if not (v["rule"] in seen or seen.add(v["rule"]))]
